@@ -98,6 +98,19 @@ static std::string hexOfBits(const std::vector<bool> &b) {
 	return r;
 }
 
+static std::vector<uint8_t> bytesOfHex(const std::string &h) {
+	std::vector<uint8_t> r;
+	if (h == "_") return r;
+	for (size_t i = 0; i + 1 < h.size(); i += 2) r.push_back((uint8_t)strtoul(h.substr(i, 2).c_str(), nullptr, 16));
+	return r;
+}
+static std::string hexOfBytes(const std::vector<uint8_t> &b) {
+	if (b.empty()) return "_";
+	std::string r; char buf[4];
+	for (auto x : b) { snprintf(buf, sizeof buf, "%02x", x); r += buf; }
+	return r;
+}
+
 template<class Config>
 struct Runner {
 	typedef BitVectorState<Config> St;
@@ -214,7 +227,8 @@ struct Runner {
 				if (oracle) for (size_t p = 0; p < NP; p++) oregs[rd][p].insert(oregs[rd][p].end(), oregs[rs][p].begin(), oregs[rs][p].end());
 			} else if (name == "eq") {
 				size_t ra = U(1), rb = U(2);
-				obs = B(regs[ra] == regs[rb]);
+				bool e = regs[ra] == regs[rb], ne = regs[ra] != regs[rb];
+				obs = e == !ne ? B(e) : std::string("INCONSISTENT-EQ-NE");
 				if (oracle) oobs = B(oregs[ra] == oregs[rb]);
 			} else if (name == "allone" || name == "allzero") {
 				size_t r = U(1), p = U(2), s = U(3), sz = Z(4);
@@ -272,6 +286,147 @@ struct Runner {
 				size_t r = U(1), off = U(2), sz = U(3);
 				obs = hexOfBig(extractBigInt(regs[r], off, sz));
 				if (oracle) { std::vector<bool> b(oregs[r][0].begin() + off, oregs[r][0].begin() + off + sz); oobs = hexOfBits(b); }
+			} else if (name == "extbigall") {
+				size_t r = U(1);
+				obs = hexOfBig(extractBigInt(regs[r]));
+				if (oracle) oobs = hexOfBits(oregs[r][0]);
+			} else if (name == "alldef") {
+				size_t r = U(1), s = U(2), sz = Z(3);
+				obs = B(allDefined(regs[r], s, sz));
+				if (oracle) { size_t n = std::min(sz, oregs[r][1].size() - s); bool e = true; for (size_t i = 0; i < n; i++) if (!oregs[r][1][s + i]) e = false; oobs = B(e); }
+			} else if (name == "assign") {
+				size_t rd = U(1), rs = U(2); target = rd;
+				regs[rd] = regs[rs];
+				if (oracle) oregs[rd] = oregs[rs];
+			} else if (name == "swap") {
+				size_t ra = U(1), rb = U(2); target = ra;
+				std::swap(regs[ra], regs[rb]);
+				if (oracle) std::swap(oregs[ra], oregs[rb]);
+			} else if (name == "move") {
+				size_t rd = U(1), rs = U(2); target = rd;
+				regs[rd] = std::move(regs[rs]);
+				regs[rs] = St();
+				if (oracle) { oregs[rd] = oregs[rs]; oregs[rs] = OState(NP); }
+			} else if (name == "clearresize") {
+				size_t r = U(1), n = U(2); target = r;
+				regs[r].clear();
+				regs[r].resize(n);
+				if (oracle) oregs[r] = OState(NP, std::vector<bool>(n, false));
+			} else if (name == "head") {
+				size_t r = U(1), p = U(2);
+				obs = hexWord(regs[r].head((Plane)p));
+				if (oracle) { uint64_t e = 0; for (size_t i = 0; i < oregs[r][p].size(); i++) if (oregs[r][p][i]) e |= 1ull << i; oobs = hexWord(e); }
+			} else if (name == "alldefns") {
+				size_t r = U(1), s = U(2), sz = U(3);
+				obs = B(allDefinedNonStraddling(regs[r], s, sz));
+				if (oracle) { bool e = true; for (size_t i = 0; i < sz; i++) if (!oregs[r][1][s + i]) e = false; oobs = B(e); }
+			} else if (name == "asbytes") {
+				size_t r = U(1), p = U(2);
+				auto sp = regs[r].asBytes((Plane)p);
+				BigInt v = 0;
+				for (size_t k = sp.size(); k-- > 0;) v = (v << 8) | BigInt((unsigned)sp[k]);
+				obs = hexOfBig(v);
+				if (oracle) oobs = hexOfBits(oregs[r][p]);
+			} else if (name == "eqbytes") {
+				size_t r = U(1);
+				auto bytes = bytesOfHex(t[2]);
+				size_t n = bytes.size();
+				bytes.resize(n + 8, 0xA5);      // the implementation reads up to 7 bytes past the span for a partial last word
+				if constexpr (NP == 2) {
+					std::span<const std::byte> sp((const std::byte*)bytes.data(), n);
+					try {
+						bool e = regs[r] == sp, ne = regs[r] != sp;
+						obs = e == !ne ? B(e) : std::string("INCONSISTENT-EQ-NE");
+					} catch (const std::runtime_error &) { obs = "-1"; }
+				}
+				if (oracle) {
+					if (oregs[r][0].size() != 8 * n) oobs = "-1";
+					else { bool e = true; for (size_t i = 0; i < 8 * n; i++) if (!oregs[r][1][i] || oregs[r][0][i] != (((bytes[i / 8]) >> (i % 8)) & 1)) e = false; oobs = B(e); }
+				}
+			} else if (name == "iterread") {
+				size_t r = U(1), p = U(2), off = U(3), sz = U(4);
+				auto rg = regs[r].range((Plane)p, off, sz);
+				BigInt v = 0; size_t pos = 0;
+				for (auto it = rg.first; it != rg.second; ++it) { uint64_t c = *it; v |= BigInt(c) << pos; pos += it.stepWidth(); }
+				obs = hexOfBig(v);
+				if (oracle) { std::vector<bool> b(oregs[r][p].begin() + off, oregs[r][p].begin() + off + sz); oobs = hexOfBits(b); }
+			} else if (name == "iterwrite") {
+				size_t r = U(1), p = U(2), off = U(3), sz = U(4); target = r;
+				BigInt V = bigOfHex(t[5]);
+				auto rg = regs[r].range((Plane)p, off, sz);
+				size_t pos = 0;
+				for (auto it = rg.first; it != rg.second; ++it) { *it = (uint64_t)((V >> pos) & BigInt(0xFFFFFFFFFFFFFFFFull)); pos += it.stepWidth(); }
+				if (oracle) { auto bits = twosBits(t[5], sz); for (size_t i = 0; i < sz; i++) oregs[r][p][off + i] = bits[i]; }
+			} else if (name == "bitneg") {
+				BigInt v = bigOfHex(t[1]); size_t width = U(2);
+				obs = hexOfBig(bitwiseNegation(v, width));
+				if (oracle) {
+					BigInt m = v < 0 ? BigInt(-v) : v;
+					size_t bits = 0; { BigInt x = m; while (x != 0) { x >>= 1; bits++; } }
+					size_t L = std::max<size_t>(std::max<size_t>((bits + 63) / 64, 1), (width + 63) / 64);
+					oobs = hexOfBig((BigInt(1) << (64 * L)) - 1 - m);
+				}
+			} else if (name == "pbv") {
+				size_t r = U(1); uint64_t v = parseHex64(t[2]); size_t w = U(3); target = r;
+				if constexpr (NP == 2) regs[r] = parseBitVector(v, w);
+				if (oracle) { OState o(NP, std::vector<bool>(w, false)); for (size_t i = 0; i < w; i++) { o[1][i] = true; o[0][i] = i < 64 && ((v >> i) & 1); } oregs[r] = o; }
+			} else if (name == "cdv") {
+				size_t r = U(1), w = U(2); uint64_t v = parseHex64(t[3]); target = r;
+				if constexpr (NP == 2) { try { regs[r] = createDefaultBitVectorState(w, (size_t)v); obs = "1"; } catch (const std::exception &) { obs = "EXC"; } }
+				if (oracle) {
+					if (w == 0) oobs = "EXC";
+					else { OState o(NP, std::vector<bool>(w, false)); for (size_t i = 0; i < w; i++) { o[1][i] = true; o[0][i] = i < 64 && ((v >> i) & 1); } oregs[r] = o; oobs = "1"; }
+				}
+			} else if (name == "cdd") {
+				size_t r = U(1), w = U(2); auto bytes = bytesOfHex(t[3]); target = r;
+				if constexpr (NP == 2) regs[r] = createDefaultBitVectorState(w, (const void*)bytes.data());
+				if (oracle) { OState o(NP, std::vector<bool>(w, false)); for (size_t i = 0; i < w; i++) { o[1][i] = true; o[0][i] = (bytes[i / 8] >> (i % 8)) & 1; } oregs[r] = o; }
+			} else if (name == "parsebit") {
+				size_t r = U(1); target = r;
+				if constexpr (NP == 2) {
+					try {
+						if (t[2] == "true" || t[2] == "false") regs[r] = parseBit(t[2] == "true"); else regs[r] = parseBit(t[2][0]);
+						obs = "1";
+					} catch (const std::exception &) { obs = "0"; }
+				}
+				if (oracle) {
+					char c = t[2] == "true" ? '1' : t[2] == "false" ? '0' : t[2][0];
+					if (c == '0' || c == '1' || c == 'x' || c == 'X') { OState o(NP, std::vector<bool>(1, false)); o[0][0] = c != '0'; o[1][0] = c == '0' || c == '1'; oregs[r] = o; oobs = "1"; }
+					else oobs = "0";
+				}
+			} else if (name == "asdata") {
+				size_t r = U(1); auto filler = bytesOfHex(t[2]);
+				if constexpr (NP == 2) {
+					std::vector<uint8_t> dst(regs[r].size() / 8);
+					try {
+						asData(regs[r], std::span<std::byte>((std::byte*)dst.data(), dst.size()), std::span<const std::byte>((const std::byte*)filler.data(), filler.size()));
+						obs = hexOfBytes(dst);
+					} catch (const std::exception &) { obs = "EXC"; }
+				}
+				if (oracle) {
+					size_t n = oregs[r][0].size();
+					if (n % 8) oobs = "EXC";
+					else {
+						std::vector<uint8_t> e(n / 8, 0);
+						for (size_t i = 0; i < n; i++) {
+							uint8_t f = filler.empty() ? (uint8_t)'X' : filler[(i / 8) % filler.size()];
+							bool bit = oregs[r][1][i] ? oregs[r][0][i] : ((f >> (i % 8)) & 1);
+							if (bit) e[i / 8] |= 1u << (i % 8);
+						}
+						oobs = hexOfBytes(e);
+					}
+				}
+			} else if (name == "convext") {
+				size_t r = U(1);
+				if constexpr (NP == 2) obs = dump(convertToExtended(regs[r]));
+				if (oracle) { OState o(4, std::vector<bool>(oregs[r][0].size(), false)); o[0] = oregs[r][0]; o[1] = oregs[r][1]; oobs = dumpO(o); }
+			} else if (name == "convdef") {
+				size_t r = U(1);
+				if constexpr (NP == 4) { auto d = tryConvertToDefault(regs[r]); obs = d ? dump(*d) : std::string("none"); }
+				if (oracle) {
+					bool any = false; for (size_t p = 2; p < 4; p++) for (bool b : oregs[r][p]) any = any || b;
+					if (any) oobs = "none"; else { OState o(2); o[0] = oregs[r][0]; o[1] = oregs[r][1]; oobs = dumpO(o); }
+				}
 			} else if (name == "print") {
 				size_t r = U(1); bool hex = U(2);
 				std::stringstream ss; if (hex) ss << std::hex; ss << regs[r];
@@ -399,6 +554,17 @@ int main(int argc, char **argv) {
 			if (eqBefore && !(t == u)) exposed = true;
 		}
 		std::cout << "PROBE random_then_resize_exposes_stale_bits " << (exposed ? 1 : 0) << "\n";
+		{	// clear() empties the storage but keeps m_size
+			DefaultBitVectorState c; c.resize(70); c.clear();
+			std::cout << "PROBE clear_keeps_size " << ((c.size() == 70 && c.getNumBlocks() == 0) ? 1 : 0) << "\n";
+		}
+		{	// creation helpers that write whole words / bytes: value wider than bitWidth, padding bits of the last byte
+			auto a = createDefaultBitVectorState(8, (size_t)0x1FF); a.resize(16);
+			std::cout << "PROBE create_value_wider_than_width_exposed_by_resize " << (a.get(DefaultConfig::VALUE, 8) ? 1 : 0) << "\n";
+			unsigned char bytes[2] = {0xff, 0xff};
+			auto b = createDefaultBitVectorState(13, (const void*)bytes); b.resize(16);
+			std::cout << "PROBE create_data_padding_bits_exposed_by_resize " << (b.get(DefaultConfig::VALUE, 13) ? 1 : 0) << "\n";
+		}
 		return 0;
 	}
 	if (argc < 3) { std::cerr << "usage: C18_bvs run|oracle <opsfile> | info | probe\n"; return 2; }
